@@ -48,10 +48,15 @@ pub struct World {
     /// label printed if the process has to die inside the handler
     pub ctx_label: [u8; 96],
     pub ctx_len: usize,
-    /// optional: monitor-mode hook (cpusim); returns true if handled
-    pub on_sigtrap: Option<unsafe fn(&mut World, &mut Ctx) -> bool>,
-    /// optional: extra instruction semantics (cpusim: descriptor tables, delivery)
-    pub ext: Option<unsafe fn(&mut World, &mut Ctx, Kind, usize) -> bool>,
+    /// monitor mode (EFLAGS.TF single-stepping): every instruction boundary is seen
+    pub mon_active: bool,
+    pub mon_steps: u64,
+    pub mon_budget: u64,
+    pub mon_overrun: bool,
+    /// where a trapped iretq / retfq continues (the popped values are recorded, not followed)
+    pub landing: Option<(u64, u64)>,
+    /// intercept cpuid leaves 0x8000_0008 / 0x8000_000a
+    pub cpuid_intercept: bool,
 }
 
 static mut WORLD: *mut World = core::ptr::null_mut();
@@ -77,8 +82,12 @@ pub fn world() -> &'static mut World {
                 depth: 0,
                 ctx_label: [0; 96],
                 ctx_len: 0,
-                on_sigtrap: None,
-                ext: None,
+                mon_active: false,
+                mon_steps: 0,
+                mon_budget: 400_000,
+                mon_overrun: false,
+                landing: None,
+                cpuid_intercept: true,
             });
             WORLD = Box::into_raw(w);
             install_handlers();
@@ -336,7 +345,7 @@ impl World {
                 self.cpu.invpcid(k, d);
             }
             Kind::Cli => self.cpu.cli(),
-            Kind::Sti => self.cpu.sti(),
+            Kind::Sti => self.cpu.sti(next),
             Kind::In { width } => {
                 let port = ctx.get(2) as u16;
                 let v = self.cpu.port_in(width, port) as u64;
@@ -361,16 +370,202 @@ impl World {
                 } as u32;
                 self.cpu.port_out(width, port, v);
             }
-            other => {
-                if let Some(f) = self.ext {
-                    return f(self, ctx, other, len);
+            Kind::Hlt => self.cpu.hlt(),
+            Kind::Swapgs => self.cpu.swapgs(),
+            Kind::Invlpgb => {
+                let (rax, ecx, edx) = (ctx.get(0), ctx.get(1) as u32, ctx.get(2) as u32);
+                self.cpu.trace.push(Ev::Invlpgb { rax, ecx, edx });
+                if !self.cpu.cpuid.invlpgb {
+                    self.cpu.faults += 1;
+                    self.cpu.trace.push(Ev::Fault { vec: 6, why: "invlpgb not supported by this processor".into() });
+                } else if rax & 1 != 0 && (ecx & 0xffff) > self.cpu.cpuid.invlpgb_max as u32 {
+                    self.cpu.faults += 1;
+                    self.cpu.trace.push(Ev::Fault { vec: 13, why: format!("invlpgb count {} exceeds the processor maximum {}", ecx & 0xffff, self.cpu.cpuid.invlpgb_max) });
                 }
-                return false;
             }
+            Kind::Tlbsync => self.cpu.trace.push(Ev::Tlbsync),
+            Kind::Lgdt { addr } | Kind::Lidt { addr } => {
+                let limit = (addr as *const u16).read_unaligned();
+                let base = ((addr + 2) as *const u64).read_unaligned();
+                if matches!(kind, Kind::Lgdt { .. }) {
+                    self.cpu.gdtr = crate::cpu::DtReg { base, limit };
+                    self.cpu.trace.push(Ev::Lgdt { base, limit, operand: addr });
+                } else {
+                    self.cpu.idtr = crate::cpu::DtReg { base, limit };
+                    self.cpu.trace.push(Ev::Lidt { base, limit, operand: addr });
+                }
+            }
+            Kind::Ltr { gpr } => {
+                let sel = ctx.get(gpr) as u16;
+                self.cpu.ltr(sel);
+            }
+            Kind::MovToSreg { sreg, gpr } => {
+                let sel = ctx.get(gpr) as u16;
+                self.cpu.load_data_seg(sreg, sel);
+            }
+            Kind::MovFromSreg { sreg, gpr, opsize } => {
+                let v = self.cpu.sel[sreg as usize];
+                self.cpu.trace.push(Ev::ReadSreg { sreg, val: v });
+                let old = ctx.get(gpr);
+                ctx.set(gpr, if opsize == 2 { (old & !0xffff) | v as u64 } else { v as u64 });
+            }
+            Kind::FsGsBase { which, gpr, wide } => {
+                let gs = which & 1 != 0;
+                if which < 2 {
+                    let v = if gs { self.cpu.gs_base } else { self.cpu.fs_base };
+                    self.cpu.trace.push(Ev::RdBase { gs, val: v });
+                    ctx.set(gpr, if wide { v } else { v & 0xffff_ffff });
+                } else {
+                    let v = if wide { ctx.get(gpr) } else { ctx.get(gpr) & 0xffff_ffff };
+                    self.cpu.trace.push(Ev::WrBase { gs, val: v });
+                    if !crate::hwwalk::is_canonical(v) {
+                        self.cpu.faults += 1;
+                        self.cpu.trace.push(Ev::Fault { vec: 13, why: format!("wr{}base with non-canonical {v:#x}", if gs { "gs" } else { "fs" }) });
+                    } else if gs {
+                        self.cpu.gs_base = v;
+                    } else {
+                        self.cpu.fs_base = v;
+                    }
+                }
+            }
+            Kind::Pushfq => {
+                let v = self.cpu.rflags_value(ctx.eflags());
+                self.cpu.trace.push(Ev::Pushfq { val: v });
+                let sp = ctx.rsp() - 8;
+                (sp as *mut u64).write_unaligned(v);
+                ctx.set(4, sp);
+            }
+            Kind::Popfq => {
+                let sp = ctx.rsp();
+                let v = (sp as *const u64).read_unaligned();
+                ctx.set(4, sp + 8);
+                self.cpu.trace.push(Ev::Popfq { val: v });
+                const ARITH: u64 = 0x8d5 | 0x400;
+                let was = self.cpu.iflag;
+                self.cpu.iflag = v & 0x200 != 0;
+                if !was && self.cpu.iflag {
+                    // popfq has no interrupt shadow
+                    self.cpu.shadow_rip = None;
+                }
+                self.cpu.rflags_sys = v & !ARITH & !0x200 & !2;
+                let keep = ctx.eflags() & !ARITH;
+                ctx.set_eflags(keep | (v & ARITH));
+            }
+            Kind::Cpuid => {
+                let (leaf, sub) = (ctx.get(0) as u32, ctx.get(1) as u32);
+                self.cpu.trace.push(Ev::Cpuid { leaf, sub });
+                let r = core::arch::x86_64::__cpuid_count(leaf, sub);
+                let (mut a, mut b, mut c, mut d) = (r.eax, r.ebx, r.ecx, r.edx);
+                if self.cpuid_intercept && leaf == 0x8000_0008 {
+                    let p = &self.cpu.cpuid;
+                    b = (b & !((1 << 3) | (1 << 21))) | ((p.invlpgb as u32) << 3) | ((p.nested as u32) << 21);
+                    d = (d & !0xffff) | p.invlpgb_max as u32;
+                    let _ = (&mut a, &mut c);
+                }
+                if self.cpuid_intercept && leaf == 0x8000_000a {
+                    b = self.cpu.cpuid.nasid;
+                }
+                ctx.set(0, a as u64);
+                ctx.set(3, b as u64);
+                ctx.set(1, c as u64);
+                ctx.set(2, d as u64);
+            }
+            Kind::Retfq => {
+                let sp = ctx.rsp();
+                let rip = (sp as *const u64).read_unaligned();
+                let cs = ((sp + 8) as *const u64).read_unaligned();
+                self.cpu.trace.push(Ev::Retfq { rip, cs });
+                if self.cpu.load_cs(cs as u16) {
+                    ctx.set(4, sp + 16);
+                    ctx.set_rip(rip);
+                    return true;
+                }
+                // refused: continue after the instruction with the frame popped (so that the call returns)
+                ctx.set(4, sp + 16);
+                ctx.set_rip(rip);
+                return true;
+            }
+            Kind::Iretq => {
+                let sp = ctx.rsp();
+                let rd = |k: u64| ((sp + 8 * k) as *const u64).read_unaligned();
+                let (rip, cs, rflags, rsp, ss) = (rd(0), rd(1), rd(2), rd(3), rd(4));
+                self.cpu.trace.push(Ev::Iretq { rip, cs, rflags, rsp, ss });
+                match self.landing.take() {
+                    Some((lrip, lrsp)) => {
+                        ctx.set_rip(lrip);
+                        ctx.set(4, lrsp);
+                    }
+                    None => return false,
+                }
+                return true;
+            }
+            Kind::Sgdt { .. } | Kind::Sidt { .. } | Kind::Int3 => return false,
+            _ => return false,
         }
         ctx.set_rip(next);
         true
     }
+}
+
+#[inline(never)]
+#[no_mangle]
+pub extern "C" fn usim_mon_exit_point() {
+    // leaving monitor mode: the handler recognises this address at an instruction boundary
+    unsafe { core::arch::asm!("nop", options(nomem, nostack, preserves_flags)) }
+}
+
+impl World {
+    /// One #DB in monitor mode: RIP is at an instruction boundary.
+    unsafe fn mon_step(&mut self, ctx: &mut Ctx) {
+        self.mon_steps += 1;
+        if self.mon_steps > self.mon_budget {
+            self.mon_overrun = true;
+            self.mon_active = false;
+            ctx.set_eflags(ctx.eflags() & !0x100);
+            return;
+        }
+        self.mon_peek(ctx);
+    }
+
+    /// Look at the instruction about to execute; emulate it if it is one of ours, repeatedly.
+    unsafe fn mon_peek(&mut self, ctx: &mut Ctx) {
+        loop {
+            let rip = ctx.rip();
+            if rip == usim_mon_exit_point as usize as u64 {
+                self.mon_active = false;
+                ctx.set_eflags(ctx.eflags() & !0x100);
+                return;
+            }
+            self.cpu.at_boundary(rip);
+            let bytes = core::slice::from_raw_parts(rip as *const u8, 15);
+            match decode::decode(bytes, ctx) {
+                Some(insn) if !matches!(insn.kind, Kind::Int3 | Kind::Sgdt { .. } | Kind::Sidt { .. }) => {
+                    if !self.emulate(ctx, insn.kind, insn.len) {
+                        return;
+                    }
+                }
+                _ => return,
+            }
+        }
+    }
+}
+
+/// Run `f` in monitor mode: EFLAGS.TF is set, every instruction boundary inside `f` is seen by the
+/// simulator, and instructions that would execute natively with the wrong (ring 3) semantics
+/// (pushfq, popfq, mov sreg, rd/wr fs/gs base, cpuid, xgetbv) are emulated instead.
+pub fn monitor<T>(f: impl FnOnce() -> T) -> T {
+    let w = world();
+    w.mon_active = true;
+    w.mon_steps = 0;
+    w.mon_overrun = false;
+    unsafe {
+        core::arch::asm!("pushfq", "or qword ptr [rsp], 0x100", "popfq", "nop");
+    }
+    let r = f();
+    usim_mon_exit_point();
+    // belt and braces: if the exit point was not seen (budget overrun), TF is already clear
+    world().mon_active = false;
+    r
 }
 
 unsafe extern "C" fn on_signal(sig: libc::c_int, info: *mut libc::siginfo_t, uc: *mut libc::c_void) {
@@ -389,8 +584,9 @@ unsafe extern "C" fn on_signal(sig: libc::c_int, info: *mut libc::siginfo_t, uc:
     let rip = ctx.rip();
     let mut handled = false;
     if sig == libc::SIGTRAP {
-        if let Some(f) = w.on_sigtrap {
-            handled = f(w, &mut ctx);
+        if w.mon_active {
+            w.mon_step(&mut ctx);
+            handled = true;
         }
     } else if sig == libc::SIGILL || (sig == libc::SIGSEGV && code == 0x80) {
         // privileged / unknown instruction: decode at RIP
@@ -400,7 +596,13 @@ unsafe extern "C" fn on_signal(sig: libc::c_int, info: *mut libc::siginfo_t, uc:
         }
         let bytes = core::slice::from_raw_parts(rip as *const u8, 15);
         if let Some(insn) = decode::decode(bytes, &ctx) {
+            // outside monitor mode a trapped instruction is the only instruction boundary the
+            // simulator sees: pending interrupts are taken here
+            w.cpu.at_boundary(rip);
             handled = w.emulate(&mut ctx, insn.kind, insn.len);
+            if handled && w.mon_active {
+                w.mon_peek(&mut ctx);
+            }
         }
     } else if sig == libc::SIGSEGV || sig == libc::SIGBUS {
         let write = ctx.err() & 2 != 0;
